@@ -7,6 +7,7 @@ package main
 import (
 	"go/types"
 	"sort"
+	"strings"
 
 	"golang.org/x/tools/go/ssa"
 )
@@ -73,6 +74,40 @@ type LockAn struct {
 
 // lockOp classifies a call as an operation on a mutex field: returns the field and +W/+R/-W/-R.
 func lockOp(cc *ssa.CallCommon) (fld *types.Var, acquire bool, mode int, ok bool) {
+	if fld, acquire, mode, ok = syncLockOp(cc); ok {
+		return
+	}
+	// a wrapper of the module (`func (d *T) lock() { d.mu.Lock() }`): a straight-line function whose only call is one
+	// lock operation on a mutex field reached from one of its parameters counts as that operation
+	f := calleeFunc(cc)
+	if f == nil || f.Blocks == nil || len(f.Blocks) != 1 || f.Pkg == nil || !strings.HasPrefix(f.Pkg.Pkg.Path(), modPath) {
+		return nil, false, 0, false
+	}
+	n := 0
+	for _, ins := range f.Blocks[0].Instrs {
+		switch x := ins.(type) {
+		case *ssa.Call:
+			n++
+			wf, wa, wm, wok := syncLockOp(&x.Call)
+			if !wok || wf == nil {
+				return nil, false, 0, false
+			}
+			if _, isPar := path(x.Call.Args[0]).Root.(*ssa.Parameter); !isPar {
+				return nil, false, 0, false
+			}
+			fld, acquire, mode = wf, wa, wm
+		case *ssa.Defer, *ssa.Go, *ssa.Store, *ssa.MapUpdate, *ssa.Send, *ssa.Panic:
+			return nil, false, 0, false
+		}
+	}
+	if n != 1 {
+		return nil, false, 0, false
+	}
+	return fld, acquire, mode, true
+}
+
+// syncLockOp recognises the methods of sync.Mutex / sync.RWMutex themselves.
+func syncLockOp(cc *ssa.CallCommon) (fld *types.Var, acquire bool, mode int, ok bool) {
 	name := calleeName(cc)
 	switch name {
 	case "(*sync.Mutex).Lock", "(*sync.RWMutex).Lock":
